@@ -15,6 +15,7 @@ Say(T, kind, clause, detail) == PrintT(<<kind, T.tid, clause, detail>>)
 Cls(T) == IF T.big = 1 THEN "big-coordinates" ELSE IF TpfExpressible(T.asm) THEN "tpf-expressible" ELSE "agp-only"
 JRt(T) ==
   LET a == T.asm IN
+  IF ~DistinctAdjacentNames(a) THEN TRUE ELSE     \* outside the domain: neither format can tell two consecutive same-named scaffolds apart
   /\ ((T.agp_exc = "" /\ T.agp_parsed = a) \/ Say(T, "V", "C05.agp_roundtrip", Cls(T) \o (IF T.agp_exc # "" THEN "/exc:" \o T.agp_exc ELSE "")))
   /\ (T.agp_reformat = T.agp \/ Say(T, "V", "C05.agp_canonical_reformat", Cls(T)))
   /\ (T.big = 1 \/ T.agp = FormatAGP(a) \/ Say(T, "M", "format_agp", Cls(T)))
